@@ -199,7 +199,126 @@ fn compare(report: &mut Report, items: &[&Item], results: &[&crate::e1::CaseResu
     }
 }
 
+/// Token-level invariance: derive lists and module visibility may change `#[derive(..)]`
+/// attributes and visibility keywords, nothing else (so nothing that reaches the wire).
+fn strip_derives_and_visibility(tokens: &str) -> Result<String, String> {
+    use quote::ToTokens;
+    let mut file: syn::File = syn::parse_str(tokens).map_err(|e| format!("tokens do not parse: {}", e))?;
+    fn strip(items: &mut Vec<syn::Item>, top: bool) {
+        for it in items.iter_mut() {
+            match it {
+                syn::Item::Struct(s) => {
+                    s.attrs.retain(|a| !a.path().is_ident("derive"));
+                    if top {
+                        s.vis = syn::Visibility::Inherited;
+                    }
+                }
+                syn::Item::Enum(e) => e.attrs.retain(|a| !a.path().is_ident("derive")),
+                syn::Item::Mod(m) => {
+                    if top {
+                        m.vis = syn::Visibility::Inherited;
+                    }
+                    if let Some((_, inner)) = &mut m.content {
+                        strip(inner, false);
+                    }
+                }
+                _ => {}
+            }
+        }
+    }
+    strip(&mut file.items, true);
+    Ok(file.to_token_stream().to_string())
+}
+
+fn token_invariance(report: &mut Report, n: usize) {
+    use crate::e2::{Job, Outcome, Pool, QuerySrc, Scratch};
+    let scratch = Scratch::new("c09t");
+    let cfg = CaseCfg::default();
+    let mut stats = GenStats::default();
+    let tapes = sample_tapes(report.seed, 0xC09E, n, 3072);
+    let derive_lists: [(&str, &str); 5] = [("Debug", "Debug"), ("Serialize,Debug,Clone", "Deserialize,Debug"), ("PartialEq, Clone", "Clone"), ("Serialize", "Deserialize, PartialEq"), ("Debug,Serialize,PartialEq,Clone", "Debug,Clone,Deserialize")];
+    let mut jobs = Vec::new();
+    let mut metas = Vec::new();
+    for tp in &tapes {
+        let mut t = Tape::new(tp);
+        let Some(b) = build_base(&mut t, &cfg, &mut stats) else { continue };
+        let sp = scratch.file(&b.case.schema_text, &b.case.schema_ext);
+        let mut base_opts = b.case.opts.clone();
+        base_opts.derive_mode = false;
+        base_opts.operation_name = None;
+        base_opts.response_derives = None;
+        base_opts.variables_derives = None;
+        base_opts.visibility = None;
+        let mut st = Tape::new(&tp[tp.len() / 2..]);
+        let mut variants = vec![base_opts.clone()];
+        for _ in 0..2 {
+            let mut o = base_opts.clone();
+            let (r, v) = *st.pick(&derive_lists);
+            o.response_derives = Some(r.to_string());
+            o.variables_derives = Some(v.to_string());
+            o.visibility = st.pick(&[None, Some("pub".to_string()), Some("pub(crate)".to_string())]).clone();
+            variants.push(o);
+        }
+        for o in &variants {
+            jobs.push(Job { schema_path: sp.clone(), query: QuerySrc::Text(b.case.document.clone()), opts: o.clone(), cwd: None });
+        }
+        metas.push((tp.clone(), b.case.schema_text.clone(), b.case.schema_ext.clone(), b.case.document.clone(), variants, b.features.has("enum") || b.features.has("input_object_var")));
+    }
+    let outs = Pool::default().run(&jobs);
+    for (i, (tape, schema, ext, doc, variants, nt)) in metas.iter().enumerate() {
+        let o = &outs[3 * i..3 * i + 3];
+        let Outcome::Ok(base) = &o[0] else { continue };
+        let Ok(base_norm) = strip_derives_and_visibility(base) else { continue };
+        for k in 1..3 {
+            report.evaluations += 1;
+            if *nt {
+                report.nontrivial.insert(fnv_str(&[schema, doc, &serde_json::to_string(&variants[k]).unwrap(), "tokens"]));
+            }
+            let problem = match &o[k] {
+                Outcome::Ok(t) => match strip_derives_and_visibility(t) {
+                    Ok(n) if n == base_norm => None,
+                    Ok(n) => {
+                        let i = n.bytes().zip(base_norm.bytes()).position(|(a, b)| a != b).unwrap_or(n.len().min(base_norm.len()));
+                        let s = i.saturating_sub(80);
+                        Some(format!("generated items differ beyond #[derive] / visibility: ...{} <> ...{}", base_norm.chars().skip(s).take(200).collect::<String>(), n.chars().skip(s).take(200).collect::<String>()))
+                    }
+                    Err(e) => Some(e),
+                },
+                other => Some(format!("generation outcome changes with the derive lists / visibility: {}", other.short())),
+            };
+            if let Some(p) = problem {
+                let summary = format!("derive lists {:?} / {:?}, visibility {:?}: {}", variants[k].response_derives, variants[k].variables_derives, variants[k].visibility, p);
+                let replay = json!({"engine": "e2", "tape_hex": crate::tape::hex(tape), "schema": schema, "schema_ext": ext, "document": doc, "base_options": variants[0], "variant_options": variants[k], "observed": p});
+                report.failure(None, &format!("c09t:{}", crate::campaign::dedup_text(&p)), &summary, || replay);
+            }
+        }
+    }
+}
+
+fn replay_tokens(report: &mut Report, v: &Value) {
+    use crate::e2::{Job, Outcome, Pool, QuerySrc, Scratch};
+    let scratch = Scratch::new("c09tr");
+    let sp = scratch.file(v["schema"].as_str().unwrap_or(""), v["schema_ext"].as_str().unwrap_or("graphql"));
+    let a: Opts = serde_json::from_value(v["base_options"].clone()).unwrap_or_default();
+    let b: Opts = serde_json::from_value(v["variant_options"].clone()).unwrap_or_default();
+    let doc = v["document"].as_str().unwrap_or("").to_string();
+    let outs = Pool::default().run(&[Job { schema_path: sp.clone(), query: QuerySrc::Text(doc.clone()), opts: a, cwd: None }, Job { schema_path: sp, query: QuerySrc::Text(doc), opts: b, cwd: None }]);
+    report.evaluations += 1;
+    report.nontrivial.insert(1);
+    report.nontrivial.insert(2);
+    let same = match (&outs[0], &outs[1]) {
+        (Outcome::Ok(x), Outcome::Ok(y)) => strip_derives_and_visibility(x).ok() == strip_derives_and_visibility(y).ok(),
+        (x, y) => x.class() == y.class(),
+    };
+    if !same {
+        report.violation("replay-tokens", "replayed option pair still generates different items", v.clone());
+    }
+}
+
 fn replay(report: &mut Report, v: &Value) {
+    if v["engine"] == "e2" {
+        return replay_tokens(report, v);
+    }
     let c0: crate::e1::E1Case = match serde_json::from_value(v["case"].clone()) {
         Ok(c) => c,
         Err(e) => return report.infra(format!("replay: {}", e)),
@@ -237,6 +356,7 @@ pub fn run(report: &mut Report, replay_v: Option<&Value>) {
     }
     super::replay_corpus(report, &|r, v| replay(r, v));
     let (n_bases, rounds) = if report.thorough() { (150, 10) } else { (100, 1) };
+    token_invariance(report, if report.thorough() { 40_000 } else { 3_000 });
     let mut stats = GenStats::default();
     let classify = |_: &Failure| None;
     let hooks = Hooks { classify: &classify, classify_compile: &|_, _| None, compile_failure_is_violation: false, rebuild: None };
